@@ -384,6 +384,24 @@ pub fn build_plan(desc: &CaseDesc, codec: Codec) -> Plan {
                         props: vec![("Text".to_owned(), PVal::V(Variant::String(text.clone()))), ("Sh".to_owned(), PVal::Shared(text.into_bytes()))],
                     });
                 }
+                "widetypes" => {
+                    // n same-class rows carrying one value of every type: every column is longer
+                    // than any preallocation cap (4096) a reader or writer may apply per column
+                    let types = if codec == Codec::Binary { vals::binary_types() } else { vals::xml_types() };
+                    let alphas: Vec<(String, Vec<LV>)> = types
+                        .iter()
+                        // (an unknown property cannot carry Attributes in the binary format; ids must be unique)
+                        .filter(|t| !matches!(t, VariantType::UniqueId | VariantType::Attributes))
+                        .map(|t| (format!("T{}", vals::type_name(*t)), alphabet(*t, codec, false)))
+                        .collect();
+                    for i in 0..*n {
+                        let mut props: Vec<(String, PVal)> = alphas.iter().map(|(name, a)| (name.clone(), PVal::V(a[i % a.len()].v.clone()))).collect();
+                        props.push(("Uri".to_owned(), PVal::V(Variant::Content(Content::from_uri(format!("rbxassetid://{}", i))))));
+                        props.push(("Sh".to_owned(), PVal::Shared(format!("shared {}", i % 7).into_bytes())));
+                        props.push(("R".to_owned(), PVal::Ref(Tgt::Node(1 + (i + 1) % *n))));
+                        nodes.push(PNode { class: "ZzUnknown".to_owned(), name: format!("r{}", i), parent: Some(0), props });
+                    }
+                }
                 "namelens" => {
                     // class and property names of every length around the powers of two
                     for (i, len) in [1usize, 2, 3, 4, 7, 8, 9, 15, 16, 17, 31, 32, 33, 63, 64, 65, 127, 128, 129, 255, 256, 257, 1023, 1024, 1025].iter().enumerate() {
@@ -391,6 +409,21 @@ pub fn build_plan(desc: &CaseDesc, codec: Codec) -> Plan {
                         let prop: String = "Zp".chars().chain(std::iter::repeat('p')).take(*len).collect();
                         let name: String = std::iter::repeat('n').take(*len).collect();
                         nodes.push(PNode { class, name, parent: Some(0), props: vec![(prop, PVal::V(Variant::Int32(i as i32)))] });
+                    }
+                    // long names of two- and three-byte characters behind an odd / even prefix: some
+                    // character straddles every block boundary a reader may validate at
+                    for (i, (prefix, ch, count)) in [("ZzM", "\u{e9}", 2100usize), ("ZzMx", "\u{e9}", 2100), ("ZzM", "\u{20ac}", 2800), ("ZzMx", "\u{20ac}", 2800), ("ZzMxx", "\u{20ac}", 2800)].iter().enumerate() {
+                        let long = format!("{}{}", prefix, ch.repeat(*count));
+                        nodes.push(PNode {
+                            class: long.clone(),
+                            name: long.clone(),
+                            parent: Some(0),
+                            props: vec![
+                                (long.clone(), PVal::V(Variant::Int32(100 + i as i32))),
+                                ("Uri".to_owned(), PVal::V(Variant::Content(Content::from_uri(long.clone())))),
+                                ("Fnt".to_owned(), PVal::V(Variant::Font(rbx_types::Font::new(&long, rbx_types::FontWeight::Regular, rbx_types::FontStyle::Normal)))),
+                            ],
+                        });
                     }
                 }
                 "instances" => {
@@ -1072,6 +1105,40 @@ pub fn xml_roundtrip(plan: &Plan, how: How, mode: XmlMode, fmode: FloatMode) -> 
                     same(crate::evidence::guarded(|| rbx_xml::from_str_default(text).map_err(|e| e.to_string())), "from_str_default", &mut entry_points);
                 }
             }
+            // the same options built through every order of the builder's setters, naming the
+            // bundled database explicitly (the builder does not look at the data: one document in
+            // four, chosen by its length, keeps the sweep's cost in bounds)
+            if bytes.len() % 4 == 0 {
+                use rbx_xml::{DecodeOptions, DecodePropertyBehavior, EncodeOptions, EncodePropertyBehavior};
+                let (eb, db_) = match mode {
+                    XmlMode::Default => (EncodePropertyBehavior::IgnoreUnknown, DecodePropertyBehavior::IgnoreUnknown),
+                    XmlMode::Unknown => (EncodePropertyBehavior::WriteUnknown, DecodePropertyBehavior::ReadUnknown),
+                    XmlMode::NoReflection => (EncodePropertyBehavior::NoReflection, DecodePropertyBehavior::NoReflection),
+                };
+                let database = rbx_reflection_database::get();
+                let encs = [
+                    ("property_behavior(..).reflection_database(..)", EncodeOptions::new().property_behavior(eb).reflection_database(database)),
+                    ("reflection_database(..).property_behavior(..)", EncodeOptions::new().reflection_database(database).property_behavior(eb)),
+                ];
+                for (how, o) in encs {
+                    let res = crate::evidence::guarded(|| {
+                        let mut out = Vec::new();
+                        rbx_xml::to_writer(&mut out, &r.dom, &roots, o).map(|_| out).map_err(|e| e.to_string())
+                    });
+                    match res {
+                        Ok(Ok(b2)) if b2 == bytes => {}
+                        Ok(Ok(_)) => entry_points.push(format!("EncodeOptions built as {} write another document than the same options without the (default) database named", how)),
+                        _ => entry_points.push(format!("EncodeOptions built as {} fail where the plain options succeed", how)),
+                    }
+                }
+                let decs = [
+                    ("property_behavior(..).reflection_database(..)", DecodeOptions::new().property_behavior(db_).reflection_database(database)),
+                    ("reflection_database(..).property_behavior(..)", DecodeOptions::new().reflection_database(database).property_behavior(db_)),
+                ];
+                for (how, o) in decs {
+                    same(crate::evidence::guarded(|| rbx_xml::from_reader(bytes.as_slice(), o).map_err(|e| e.to_string())), &format!("DecodeOptions built as {}", how), &mut entry_points);
+                }
+            }
             if mode == XmlMode::Default {
                 same(crate::evidence::guarded(|| rbx_xml::from_reader_default(bytes.as_slice()).map_err(|e| e.to_string())), "from_reader_default", &mut entry_points);
                 let conv = crate::evidence::guarded(|| {
@@ -1085,6 +1152,45 @@ pub fn xml_roundtrip(plan: &Plan, how: How, mode: XmlMode, fmode: FloatMode) -> 
                         }
                     }
                     _ => entry_points.push("to_writer_default fails where to_writer succeeds".to_owned()),
+                }
+                // the other property behaviours, judged against this one: WriteUnknown writes a
+                // superset; ErrorOnUnknown fails exactly when WriteUnknown wrote something more,
+                // and otherwise writes / reads the same as the default
+                use rbx_xml::{DecodeOptions, DecodePropertyBehavior, EncodeOptions, EncodePropertyBehavior};
+                let enc_with = |b: EncodePropertyBehavior| {
+                    crate::evidence::guarded(|| {
+                        let mut out = Vec::new();
+                        rbx_xml::to_writer(&mut out, &r.dom, &roots, EncodeOptions::new().property_behavior(b)).map(|_| out).map_err(|e| e.to_string())
+                    })
+                };
+                if let Ok(Ok(with_unknown)) = enc_with(EncodePropertyBehavior::WriteUnknown) {
+                    let has_unknown = with_unknown != bytes;
+                    match enc_with(EncodePropertyBehavior::ErrorOnUnknown) {
+                        Ok(Ok(b2)) => {
+                            if has_unknown {
+                                entry_points.push("EncodePropertyBehavior::ErrorOnUnknown succeeds although WriteUnknown writes properties the default leaves out".to_owned());
+                            } else if b2 != bytes {
+                                entry_points.push("EncodePropertyBehavior::ErrorOnUnknown writes another document than the default although nothing is unknown".to_owned());
+                            }
+                        }
+                        Ok(Err(_)) => {
+                            if !has_unknown {
+                                entry_points.push("EncodePropertyBehavior::ErrorOnUnknown fails although WriteUnknown and the default write the same document".to_owned());
+                            }
+                        }
+                        Err(_) => entry_points.push("EncodePropertyBehavior::ErrorOnUnknown panics".to_owned()),
+                    }
+                    for (name, b) in [("ReadUnknown", DecodePropertyBehavior::ReadUnknown), ("ErrorOnUnknown", DecodePropertyBehavior::ErrorOnUnknown)] {
+                        // the default document holds nothing unknown (unless the class itself is)
+                        if has_unknown {
+                            continue;
+                        }
+                        same(
+                            crate::evidence::guarded(|| rbx_xml::from_reader(bytes.as_slice(), DecodeOptions::new().property_behavior(b)).map_err(|e| e.to_string())),
+                            &format!("DecodePropertyBehavior::{} on a document without unknown properties", name),
+                            &mut entry_points,
+                        );
+                    }
                 }
             }
             Outcome::Ok { bytes, forest, entry_points }
